@@ -189,6 +189,7 @@ def check_preempted(ctx, pre, iface, app, req_a, req_b, where, case, mask=VOLATI
         ctx.mon("pre-empted-between-library-lines")
         if "at" not in seen:
             continue
+        ctx.extra.setdefault("preemption_switch_locations", set()).add(seen["at"])  # the distinct places a thread switch was put
         if seen.get("stuck"):
             ctx.count("pre-emption:other-request-waits-for-the-pre-empted-one(not explored)")
             continue
